@@ -2,3 +2,6 @@ import Wpull.Py.Basic
 import Wpull.Proto
 import Wpull.Ftp
 import Wpull.FtpDriver
+import Wpull.Py.Str
+import Wpull.Url
+import Wpull.UrlDriver
